@@ -89,7 +89,7 @@ func genC13(x *Ctx) *c13Scen {
 		maxPayload = 70000
 	}
 	id := 0
-	kinds := []string{"get", "get", "post-gzip", "early-close", "post-trunc", "notfound", "panic", "post-deflate", "client-gone", "plain", "hijack", "manual", "no-content"}
+	kinds := []string{"get", "get", "post-gzip", "early-close", "post-trunc", "notfound", "panic", "post-deflate", "client-gone", "plain", "hijack", "manual", "no-content", "post-panic"}
 	aes := []string{"gzip", "deflate", "gzip", "deflate, gzip", ""}
 	tp.Repeat(2, nClients, 600, func(int) {
 		var reqs []*c13Req
@@ -106,7 +106,7 @@ func genC13(x *Ctx) *c13Scen {
 				r.WFailAt = tp.G(4)
 			}
 			switch r.Kind {
-			case "post-gzip", "post-trunc", "post-deflate":
+			case "post-gzip", "post-trunc", "post-deflate", "post-panic":
 				ent := echoEntity{Tok: fmt.Sprintf("tok-%d", r.ID), N: int64(r.ID) << 40, Pad: sim.PayloadText(fmt.Sprintf("p%d", r.ID), r.N%1500)}
 				raw := []byte(jsonStr(ent))
 				if r.Kind == "post-deflate" {
@@ -233,6 +233,18 @@ func runC13(x *Ctx) {
 		resp.WriteHeader([]int{204, 304}[r.ID%2])
 		t.Y(sim.SiteHandler)
 	}))
+	// reads its (coded) entity completely, then panics
+	ws.Route(ws.POST("/echopanic").To(func(req *restful.Request, resp *restful.Response) {
+		t := sim.Cur()
+		r := byID[ReqID(req.Request)]
+		var ent echoEntity
+		if err := req.ReadEntity(&ent); err != nil {
+			r.readErr = err.Error()
+		}
+		t.Y(sim.SiteHandler)
+		t.Count("fault-panic")
+		panic(fmt.Sprintf("boom-%d", r.ID))
+	}))
 	ws.Route(ws.POST("/echo").To(func(req *restful.Request, resp *restful.Response) {
 		r := byID[ReqID(req.Request)]
 		var ent echoEntity
@@ -312,7 +324,7 @@ func runC13(x *Ctx) {
 					hr = NewReq("GET", "/p/none", hdr, nil, 0, r.ID)
 				case "plain":
 					hr = NewReq("GET", "/plain/x", hdr, nil, 0, r.ID)
-				case "post-gzip", "post-trunc", "post-deflate":
+				case "post-gzip", "post-trunc", "post-deflate", "post-panic":
 					hdr["Content-Type"] = "application/json"
 					hdr["Content-Encoding"] = "gzip"
 					if r.Kind == "post-deflate" {
@@ -324,6 +336,9 @@ func runC13(x *Ctx) {
 						t.Count("fault-btrunc")
 					}
 					hr = NewReq("POST", "/p/echo", hdr, b, int64(len(r.body)), r.ID)
+					if r.Kind == "post-panic" {
+						hr = NewReq("POST", "/p/echopanic", hdr, b, int64(len(r.body)), r.ID)
+					}
 					if r.CancelRd > 0 {
 						ctx, cancel := context.WithCancel(hr.Context())
 						hr = hr.WithContext(ctx)
@@ -453,6 +468,17 @@ func runC13(x *Ctx) {
 						x.Violate("second-close-accepted", "request %d: closing the response writer a second time returned no error", r.ID)
 					}
 				}
+			case "post-panic":
+				if sc.Recover {
+					if r.escaped != nil {
+						x.Violate("panic-escaped", "request %d: panic %v escaped with recovery on", r.ID, r.escaped)
+					}
+				} else if fmt.Sprint(r.escaped) != fmt.Sprintf("boom-%d", r.ID) {
+					x.Violate("panic-lost", "request %d: recovery off but the caller saw %v", r.ID, r.escaped)
+				}
+				if r.readErr != "" {
+					x.Violate("foreign-payload", "request %d (post-panic): its own well-formed entity was not readable: %s", r.ID, r.readErr)
+				}
 			case "panic":
 				if sc.Recover {
 					if r.escaped != nil {
@@ -480,7 +506,7 @@ func runC13(x *Ctx) {
 					x.Violate("status", "request %d: unknown path answered %d", r.ID, r.w.Status())
 				}
 			}
-			if r.escaped != nil && r.Kind != "panic" {
+			if r.escaped != nil && r.Kind != "panic" && r.Kind != "post-panic" {
 				x.Violate("panic-escaped", "request %d (%s): unexpected panic %v", r.ID, r.Kind, r.escaped)
 			}
 		}
